@@ -953,4 +953,48 @@ fn one_case(seed: u64, i: u64, exhaustive_upto: u64, acc: &mut Acc) {
       }
     }
   }
+
+  // ---- compound alterations around the transformation kind: the kind in the CryptoHeader rewritten to every OTHER
+  // valid value (0 = NONE, 1-4 the builtin kinds), alone and together with one altered byte of the protected
+  // content (an attacker who downgrades the kind does it to get altered content through). Judged by rule (ii):
+  // if decoding succeeds the output must be the original.
+  let kind_pos: Vec<usize> = m.positions_of(|f| matches!(f, Field::Kind));
+  let content: Vec<usize> = m.positions_of(|f| matches!(f, Field::Cipher | Field::SignedPlain));
+  if let Some(&kp) = kind_pos.last() {
+    for v in 0u8..=4 {
+      if v == m.kind {
+        continue;
+      }
+      for with_content in [false, true] {
+        let mut b2 = case.input.clone();
+        b2[kp] = v;
+        let mut cpos = None;
+        if with_content {
+          match content.len() {
+            0 => continue,
+            k => {
+              let c = content[rng.below(k as u64) as usize];
+              b2[c] ^= 1 + rng.below(255) as u8;
+              cpos = Some(c);
+            }
+          }
+        }
+        if leg != Leg::PayloadPlugin && reaches_info_reply(&b2) {
+          continue;
+        }
+        acc.count(&format!("tamper_kind_rewritten:{lvl}:to-kind{v}{}", if with_content { ":with-altered-content" } else { "" }), 1);
+        match case.decode(RX_B, &b2) {
+          Outcome::Rejected(_) => acc.count("tamper_kind_rewritten_rejected", 1),
+          Outcome::Ok(p) if p == case.expect => acc.count("tamper_kind_rewritten_accepted_output_unchanged", 1),
+          Outcome::Ok(p) => {
+            acc.violate(
+              format!("C16/tamper:kind-rewritten-and-altered-output-accepted:{lvl}:to-kind{v}{}", if with_content { ":with-altered-content" } else { "" }),
+              json!({"kind_offset": kp, "original_kind": m.kind, "new_kind": v, "altered_content_offset": cpos, "cfg": cfg_json, "leg": leg.via(), "len": len, "decoded_len": p.len(), "expected_len": case.expect.len()}),
+              replay(json!({"kind_offset": kp, "new_kind": v, "content_offset": cpos, "decoded": cap_hex(&p)})),
+            );
+          }
+        }
+      }
+    }
+  }
 }
